@@ -69,10 +69,20 @@ def narrow_arithmetic_stream(ctx):
     (int8 / int16 spread over their whole range) or are not exact in it (float32 values next to a decimal min_delta):
     the dendrograms must be identical (differential, no model)."""
     rng = ctx.rng('c15-narrow')
-    for it in range(80 if ctx.quick else 800):
+    for it in range(160 if ctx.quick else 1600):
         n = rng.randint(3, 10)
-        mode = rng.choice(['int8', 'int16', 'float32', 'float32', 'fractional threshold'])
-        if mode == 'fractional threshold':
+        mode = rng.choice(['int8', 'int16', 'float32', 'float32', 'fractional threshold', 'decimal threshold', 'decimal threshold'])
+        if mode == 'decimal threshold':
+            # single / half precision pixels (native or big-endian, as FITS files deliver them) that sit right at a decimal
+            # threshold: np.float32(0.1) is above 0.1, np.float32(0.7) below 0.7 - the float64 copy of the same numbers is
+            # the reference
+            dt = rng.choice(['float32', '>f4', '>f4', '>f4', '<f4', 'float16', '>f2', '>f2'])
+            ks = [rng.randint(0, 12) for _ in range(n)]
+            vals = [float(np.dtype(dt).type(k * 0.1)) for k in ks]
+            kw = {'min_value': 0.1 * rng.choice(ks), 'min_delta': rng.choice([0, 0.1, 0.3])}
+            narrow, wide = np.array(vals, dtype=dt), [np.array(vals, dtype='float64')]
+            mode = 'decimal threshold/' + dt
+        elif mode == 'fractional threshold':
             # signed integers around zero with a fractional threshold (a float, as 0.5 * sigma would be): the float copy
             # of the same numbers is the reference
             dt = rng.choice(['int8', 'int16', 'int32', 'int64'])
@@ -137,6 +147,33 @@ sys.stderr.write('RESULT ' + json.dumps(out) + '\n')
     if out['True'] != out['False']:
         ctx.oracle_failure({'stream': 'stdout closed after import', 'data': [[1, 5, 2, 7, 1], [2, 1, 6, 1, 3]]},
                            ['compute(verbose=True) gives %s, compute(verbose=False) %s' % (out['True'], out['False'])])
+    # a terminal (or log file) that only takes ASCII / Latin-1
+    code2 = r'''
+import sys, json
+import numpy as np
+from astrodendro import Dendrogram
+a = np.array([[1., 5., 2., 7., 1.], [2., 1., 6., 1., 3.]])
+out = {}
+for verbose in (False, True):
+    try:
+        d = Dendrogram.compute(a, min_value=0.5, verbose=verbose)
+        out[str(verbose)] = [d.index_map.tolist(), d.to_newick()]
+    except Exception as e:
+        out[str(verbose)] = 'raised %r' % (e,)
+sys.stderr.write('RESULT ' + json.dumps(out) + '\n')
+'''
+    for enc in ('ascii', 'latin-1'):
+        p = subprocess.run([sys.executable, '-c', code2], capture_output=True, text=True, env=dict(env, PYTHONIOENCODING=enc), timeout=300)
+        line = [l for l in p.stderr.splitlines() if l.startswith('RESULT ')]
+        ctx.count('foreign_stdout_case')
+        ctx.case_done(None, ('stdout-encoding', enc))
+        if not line:
+            ctx.oracle_failure({'stream': 'stdout encoding ' + enc}, ['the subprocess gave no result: %s' % p.stderr[-500:]])
+            continue
+        out = json.loads(line[0][7:])
+        if out['True'] != out['False']:
+            ctx.oracle_failure({'stream': 'stdout encoding ' + enc, 'data': [[1, 5, 2, 7, 1], [2, 1, 6, 1, 3]]},
+                               ['compute(verbose=True) gives %s, compute(verbose=False) %s' % (out['True'], out['False'])])
 
 
 def explore(ctx):
